@@ -62,15 +62,15 @@ type Fault struct {
 }
 
 type FS struct {
-	Root    *Inode
-	Cwd     string
-	nextID  int
-	Trace   []Call
-	Plan    map[int]Fault
+	Root   *Inode
+	Cwd    string
+	nextID int
+	Trace  []Call
+	Plan   map[int]Fault
 	// PlanK: fault by choice number, resolved against the primitive that the
 	// idx-th call turns out to be (errno = Faults[op][k % len]; for writes the
 	// quotient selects how much is written before the error).
-	PlanK map[int]int
+	PlanK   map[int]int
 	Fired   []string
 	OnCall  func(idx int, c *Call) // observer (before the call takes effect)
 	devs    map[string]int         // path prefix -> device
@@ -523,6 +523,47 @@ func (fl *File) Write(p []byte) (int, error) {
 }
 
 func (fl *File) WriteString(s string) (int, error) { return fl.Write([]byte(s)) }
+
+// ReadAt and WriteAt: positional I/O (pread / pwrite), the file offset is not
+// moved; each underlying read or write is one call of the trace.
+func (fl *File) ReadAt(p []byte, off int64) (n int, err error) {
+	if fl == nil {
+		return 0, os.ErrInvalid
+	}
+	if off < 0 {
+		return 0, pathErr("readat", fl.name, errors.New("negative offset"))
+	}
+	saved := fl.off
+	defer func() { fl.off = saved }()
+	fl.off = off
+	for n < len(p) {
+		m, e := fl.Read(p[n:])
+		n += m
+		if e != nil {
+			return n, e
+		}
+		if m == 0 {
+			return n, io.EOF
+		}
+	}
+	return n, nil
+}
+
+func (fl *File) WriteAt(p []byte, off int64) (n int, err error) {
+	if fl == nil {
+		return 0, os.ErrInvalid
+	}
+	if off < 0 {
+		return 0, pathErr("writeat", fl.name, errors.New("negative offset"))
+	}
+	if fl.flag&O_APPEND != 0 {
+		return 0, errors.New("os: invalid use of WriteAt on file opened with O_APPEND")
+	}
+	saved := fl.off
+	defer func() { fl.off = saved }()
+	fl.off = off
+	return fl.Write(p)
+}
 
 func (fl *File) Seek(offset int64, whence int) (int64, error) {
 	if fl.closed {
